@@ -33,11 +33,16 @@ RULE = ("real files in a fresh temporary directory. (rt) 3-d fields, 1-5 compone
         "mixed units, missing keys, inconsistent node counts, bad extensions; (sep) units outside the header grammar (white space, ':', "
         "'None', '') must round-trip like any unit (open finding D25); labels are identifier-like (word characters incl. underscores, "
         "non-ASCII letters), labels with other punctuation are an unflagged observation; extend_scalar=True on vector fields must "
-        "behave like extend_scalar=False (D24, fixed). non-trivial = at least two axes with >= 2 cells "
+        "behave like extend_scalar=False (D24, fixed). (text bytes) for txt files the model writes the WHOLE file (header + rows) and the bytes are "
+        "compared with the real file when the header arithmetic is exact; every text file read is also read by the model of read_csv "
+        "on its bytes; every cut of four small text files (real, extend_scalar, mumax- and OOMMF-style foreign) is read by code and "
+        "model (nothing demanded: outside the fault model); the bytes of the model's reference writer (OVF 1.0/2.0, text/bin4/bin8) are "
+        "read by the REAL reader and compared with the content. non-trivial = at least two axes with >= 2 cells "
         "and non-constant data, or a damaged/foreign file")
 TRUSTED = ["harness/c09.py (independent OVF reader/writer, generators, comparators) + driver JSON glue",
            "Python's float() / repr() on header numbers, handed to the byte-level model as tables",
-           "Python repr/float/int and pandas csv writer/reader are the fmt/parse pair (header numbers, text payload)",
+           "Python repr/float/int are the fmt/parse pair of header numbers; for the text payload numpy's astype(str) / Python's float() "
+           "are the pair only for values that are not plain short decimals (those the model formats and parses itself)",
            "struct / numpy.tobytes / numpy.fromfile are the byte codecs; the model's IEEE-754 codec on rationals is "
            "validated bit for bit against them on every run",
            "json round trip of the side-car file"]
@@ -47,10 +52,21 @@ ASSUMPTIONS = ["labels are attribute names (field.<label>): word characters incl
                "oracle; every other unit string is demanded to round-trip",
                "subregions are exercised on dyadic meshes of moderate scale (alignment at extreme scales is C14 / D18)",
                "D19 (short data block still followed by the footer) is outside the quantifier: observed, not flagged"]
-UNPROVED = ["text representation at the byte level: the header bytes of a txt file are modelled and proved read back "
-            "(written_bytes_read_txt); the rows are written by pandas.to_csv and parsed by pandas.read_csv, which stay the "
-            "trusted fmt/parse pair (the property grants 1e-9 relative); every truncation point is proved for binary "
-            "files only, as the property states it",
+UNPROVED = ["text representation: the rows are now modelled down to the bytes - what to_csv(sep=' ', header=False, index=False) "
+            "writes (textBytes) and what read_csv(sep=' ', skipinitialspace, comment='#', nrows, dtype=float64) makes of the bytes "
+            "(csvBody: lines, C tokenizer states, empty field = NaN, short records padded, long ones refused) - and proved read back "
+            "(text_rows_read_back, written_bytes_read_all, roundtrip_all_bytesT); the TEXT OF A NUMBER is modelled and proved only for "
+            "short decimals in fixed notation (dec_text_roundtrip: parseDec (fmtDec x) = x; roundtrip_all_bytes_dec); for all other "
+            "values (17-digit shortest repr, exponent notation, inf) numpy's astype(str) / Python's float() are the trusted pair, "
+            "handed to the model as tables (TextIO.LawfulOn is the hypothesis); pandas' own float parser (xstrtod) against the "
+            "correctly rounded float() is only compared to 1e-9, as the property grants",
+            "the model of read_csv covers blank, '#', newline and ordinary characters; carriage return, tab, double quote and "
+            "backslash in a text data section are outside it (csv_safe keeps such files out of the byte-level text comparison)",
+            "truncation of TEXT files (outside the property's fault model): every cut up to the start of the last row is proved "
+            "rejected (text_truncation_rejected), every cut from the end of the rows on reads to the same field "
+            "(text_cut_after_rows_same_field); a cut INSIDE the last row is read into a field by code and model alike, with NaN or a "
+            "shortened number in the last cell (text_cut_in_last_row_accepted, observation obs:text-cut-lastrow) - no theorem can "
+            "reject it",
             "header numbers: Python's repr / float are a parameter of the byte-level model (NumIO.Lawful: float(repr x) = x, "
             "no ':' or white space in the text; satisfiable: toyNum) - the driver is given Python's own results as tables",
             "the model's text helpers follow Python's str methods on ASCII white space (' ', \\t, \\r, \\n) and ASCII case "
@@ -59,9 +75,15 @@ UNPROVED = ["text representation at the byte level: the header bytes of a txt fi
             "the IEEE codec is proved lawful on binary64 VALUES (rationals); the sign of zero and NaN payloads are not "
             "values of the model and are compared on the real bytes only; narrow32 = np.float32 rounding is the model's "
             "definition of float32 rounding, validated bit for bit on every run",
-            "foreign (reference-writer) files are proved read at the structured level (reader_v1_v2, reader_v1_v2_txt); at the "
-            "byte level only their header cuts are covered (cut_in_header_rejected needs FileOk, which the written header "
-            "is proved to satisfy)"]
+            "foreign files: the reference writer's files are proved read at byte level, binary and text, with every truncation "
+            "point of the binary ones (reader_v1_v2_bytes, reader_v1_v2_txt_bytes, foreign_truncation_rejected, "
+            "foreign_cut_after_payload_same_field); other foreign styles (shuffled or extra header lines, OOMMF's two leading "
+            "blanks, mumax's trailing blank, lower-case data line) are proved at the structured level only (header_order_irrelevant, "
+            "reader_text_trailing_column, labels_foreign_styles) and tied to the bytes by the correspondence check",
+            "acceptance as an equivalence is proved for the data block given a consistent header (binary_accepted_iff), for the "
+            "reshape (unflatten_ok_iff), the labels (labels_accepted_iff), the writer (writer_accepts_iff) and the required keys "
+            "(accepted_has_keys / missing_key_rejected); which min/max/stepsize triples the Region and Mesh constructors accept is "
+            "C01's by-cell theorem, not restated here"]
 BUDGET = {"quick": 110, "thorough": 900}
 
 MAGIC = {4: 1234567.0, 8: 123456789012345.0}
@@ -114,6 +136,16 @@ def hval(key, text):
     return ["str", text]
 
 
+def qfloat(t):
+    """float(text) as the model's rational: +-2^1024 for +-inf, 2^1025 for NaN (ValueError as float())"""
+    v = float(t)
+    if v != v:
+        return Q(Fraction(2) ** 1025)
+    if v in (float("inf"), float("-inf")):
+        return Q(Fraction(2) ** 1024 * (1 if v > 0 else -1))
+    return Q(v)
+
+
 def structure(raw):
     """Line/byte structure of any byte string that claims to be an OVF file (also truncated
     ones): first line, header lines split at the first ':', data line words, data section.
@@ -154,7 +186,7 @@ def structure(raw):
             try:
                 # a blank at the end of a row (mumax3) is one more, empty, column for the csv reader (sep=" "):
                 # the model's rows carry it as an extra entry, as pandas' frame does (NaN there, 0 here)
-                rows.append([Q(float(t)) for t in s.split()] + ([Q(0)] if s[-1:] in (" ", "\t") else []))
+                rows.append([qfloat(t) for t in s.split()] + ([Q(0)] if s[-1:] in (" ", "\t") else []))
             except ValueError:   # not numbers at all (binary junk after a non-binary data line)
                 return dict(first=first, lines=out, body=dict(text=[], footer=[])), data_off
     return dict(first=first, lines=out, body=dict(text=rows, footer=footer)), data_off
@@ -257,6 +289,102 @@ def exact_fmt_table(fj):
             seen.add(x)
             out.append([repr(float(x)), Q(x)])
     return out
+
+
+# =========================================================================== text payload at byte level
+NAN_Q = Q(Fraction(2) ** 1025)          # the model's stand-in for NaN (binary64)
+INF_Q = Fraction(2) ** 1024
+NA_STRINGS = {"#N/A", "#N/A N/A", "#NA", "-1.#IND", "-1.#QNAN", "-NaN", "-nan", "1.#IND", "1.#QNAN", "<NA>", "N/A", "NA",
+              "NULL", "NaN", "None", "n/a", "nan", "null"}
+PLAIN_DEC = re.compile(r"^-?(\d+\.?\d*|\.\d+)$")
+
+
+def is_short_val(x):
+    """True when numpy/Python print the float64 x as its exact decimal expansion in fixed notation (the values the
+    model's own fmtDec handles); everything else goes to the model as a table entry"""
+    x = float(x)
+    if x != x or x in (float("inf"), float("-inf")):
+        return False
+    if x == 0:
+        return math.copysign(1.0, x) > 0
+    r = repr(x)
+    return "e" not in r and Fraction(r) == Fraction(x)
+
+
+def np_text(x):
+    """the text pandas.to_csv writes for a float64 (numpy astype(str))"""
+    return str(np.array([x], dtype=np.float64).astype(str)[0])
+
+
+def fmt_texts(values):
+    """writer side table [[text, rational]] for the values the model does not format itself; None when the values
+    cannot be keyed by their rational (a negative zero)"""
+    out, seen = [], set()
+    for x in values:
+        x = float(x)
+        if x == 0 and math.copysign(1.0, x) < 0:
+            return None
+        if is_short_val(x) or x in seen:
+            continue
+        seen.add(x)
+        if x != x or x in (float("inf"), float("-inf")):
+            return None
+        out.append([np_text(x), Q(x)])
+    return out
+
+
+def csv_safe(data):
+    """the bytes of a text data section the model of read_csv covers: no carriage return, tab, quote, vertical tab,
+    form feed, backslash (documented limits of csvGo)"""
+    return not any(b in data for b in (b"\r", b"\t", b'"', b"\x0b", b"\x0c", b"\\", b"\x00"))
+
+
+def parse_texts(data):
+    """reader side table [[text, rational]] for the tokens of a text data section that are not plain exact decimals:
+    Python's float() where pandas' parser accepts the same spelling, NaN for pandas' NA strings"""
+    out, seen = [], set()
+    try:
+        text = data.decode("latin-1")
+    except Exception:
+        return out
+    for tok in re.split(r"[ \n#]+", text):
+        if not tok or tok in seen or not tok.isascii():
+            continue
+        seen.add(tok)
+        if tok in NA_STRINGS:
+            out.append([tok, NAN_Q])
+            continue
+        if PLAIN_DEC.match(tok):
+            try:
+                if Fraction(tok) == Fraction(float(tok)):
+                    continue            # the model's own parseDec reads it
+            except (ValueError, OverflowError):
+                pass
+        if "_" in tok or tok.lower().startswith(("0x", "-0x", "+0x")) or tok.strip() != tok:
+            continue                    # Python accepts these spellings, pandas does not
+        try:
+            v = float(tok)
+        except ValueError:
+            continue
+        if v != v:
+            out.append([tok, NAN_Q])
+        elif v == float("inf"):
+            out.append([tok, Q(INF_Q)])
+        elif v == float("-inf"):
+            out.append([tok, Q(-INF_Q)])
+        else:
+            out.append([tok, Q(v)])
+    return out
+
+
+def readbytest_req(raw, side=None, reserved=()):
+    """request for the model's byte-level reader with the model of read_csv on the text data section; None when
+    the file is not a text file inside the documented limits"""
+    st, off = structure(raw)
+    if off is None or "text" not in st["body"] or not csv_safe(raw[off:]):
+        return None
+    return dict(op="readbytest", bytes=list(raw), floats=float_table(raw), texts=parse_texts(raw[off:]), side=side,
+                reserved=list(reserved))
 
 
 class FormatError(Exception):
@@ -536,6 +664,12 @@ SMALL_FILES = [
     dict(src="foreign", v2=True, w=8, nodes=[1, 2, 1], vd=2),
     dict(src="real", n=[1, 1, 2], nvdim=2, rep="bin8", labels=["ä", "b_Ω"], unit="µT", meshunit="µm"),
 ]
+SMALL_TEXT_FILES = [
+    dict(src="real", n=[2, 1, 2], nvdim=2, rep="txt", labels=["a", "b_c"], unit="T"),
+    dict(src="real", n=[1, 2, 1], nvdim=1, rep="txt", labels=None, unit=None, extend=True),
+    dict(src="foreign", v2=True, w=0, nodes=[1, 2, 1], vd=2, style="mumax"),
+    dict(src="foreign", v2=False, w=0, nodes=[2, 1, 1], vd=3, style="oommf"),
+]
 
 
 def cases(rng, tier):
@@ -559,6 +693,13 @@ def cases(rng, tier):
         step = 1 if (not quick or fi < 3 or spec.get("meshunit")) else 7
         for t in range(0, len(raw) + 1, step):
             yield dict(kind="trunc", file=spec, t=t)
+    # every cut of small TEXT files (outside the property's fault model: model against code, nothing demanded)
+    for fi, spec in enumerate(SMALL_TEXT_FILES):
+        raw, info = small_file(spec)
+        for t in range(0, len(raw) + 1):
+            if t < info["data_off"] and (quick or fi > 0) and t % 9:
+                continue
+            yield dict(kind="ttrunc", file=spec, t=t)
     for spec in SMALL_FILES[:2] + SMALL_FILES[2:4]:
         w = 4 if (spec.get("rep") == "bin4" or spec.get("w") == 4) else 8
         for pos in range(w):
@@ -647,16 +788,16 @@ def small_file(spec):
             f = df.Field(mesh, nvdim=spec["nvdim"], value=vals, vdims=spec["labels"], unit=spec["unit"])
             with tempfile.TemporaryDirectory(dir=TMPROOT) as d:
                 p = os.path.join(d, "small.omf")
-                f.to_file(p, representation=spec["rep"])
+                f.to_file(p, representation=spec["rep"], extend_scalar=bool(spec.get("extend")))
                 raw = open(p, "rb").read()
             w = 4 if spec["rep"] == "bin4" else 8
         else:
             nodes, vd = spec["nodes"], spec["vd"]
             size = nodes[0] * nodes[1] * nodes[2] * vd
             c = dict(v2=spec["v2"], w=spec["w"], vd=vd, nodes=nodes, step=[1.0, 0.5, 2.0], base=[0.5, 0.25, 1.0],
-                     meshunit="m", values=[float(k) * 0.5 - 1 for k in range(size)], style="plain")
+                     meshunit="m", values=[float(k) * 0.5 - 1 for k in range(size)], style=spec.get("style", "plain"))
             raw = write_foreign(c)
-            w = spec["w"]
+            w = spec["w"] or 8
         st, off = structure(raw)
         _SMALL_CACHE[key] = (raw, dict(data_off=off, w=w))
     return _SMALL_CACHE[key]
@@ -1002,6 +1143,25 @@ def run_impl(case):
         else:
             obs["tags"].append(f"obs:D19:{'accepted' if st == 'ok' else 'rejected'}")
         obs["nontrivial"] = True
+    elif kind == "ttrunc":
+        raw, info = small_file(case["file"])
+        off, t = info["data_off"], case["t"]
+        mod = raw[:t]
+        obs["rawb"] = mod
+        obs["file"], _ = structure(mod)
+        with tempfile.TemporaryDirectory(dir=TMPROOT) as d:
+            path = os.path.join(d, "cut.omf")
+            open(path, "wb").write(mod)
+            st, g = read_file(path)
+        obs["read"] = st
+        if st == "ok":
+            obs["back"] = field_obs(g, 8)
+        # where the rows end: the first footer line
+        end_rows = raw.index(b"# End: Data")
+        last_row = raw.rindex(b"\n", 0, end_rows - 1) + 1 if raw.count(b"\n", off, end_rows) > 1 else off
+        where = "header" if t <= off else "rows" if t <= last_row else "lastrow" if t < end_rows else "footer"
+        obs["tags"] += ["cut:text-" + where, f"obs:text-cut-{where}:{'accepted' if st == 'ok' else 'rejected'}"]
+        obs["nontrivial"] = True
     elif kind == "sep":
         mesh = df.Mesh(p1=(0, 0, 0), p2=(3, 2, 1), n=(3, 2, 1))
         nv = case["nvdim"]
@@ -1212,13 +1372,32 @@ def byte_requests(case, obs, base):
     if obs.get("side") is not None:
         side = [dict(name=k, pmin=Qs(v["pmin"]), pmax=Qs(v["pmax"]), dims=v["dims"], units=v["units"],
                      tol=Q(v["tolerance_factor"])) for k, v in obs["side"].items()]
-    add(readbytes_req(raw, obs["file"], side, obs.get("reserved", [])), "read")
+    if kind != "ttrunc":      # (the structure() reading of a cut text row is not pandas'; the model's own is used below)
+        add(readbytes_req(raw, obs["file"], side, obs.get("reserved", [])), "read")
     if py_ws_safe(raw):
         add(dict(op="lex", bytes=list(raw)), "lex")
+    # text files: the model of read_csv on the bytes of the data section
+    rt_req = readbytest_req(raw, side, obs.get("reserved", []))
+    if rt_req is not None:
+        add(rt_req, "readt")
+    if kind == "foreign" and "content" in obs and case.get("shuffle") is None:
+        # the model's reference writer down to the bytes: a foreign file the REAL reader is run on in compare()
+        c = foreign_content(case)
+        texts = fmt_texts(c["values"]) if case["w"] == 0 else []
+        hdr = [x for a in range(3) for x in (case["base"][a], case["step"][a], case["base"][a] - case["step"][a] / 2,
+                                             case["base"][a] - case["step"][a] / 2 + case["nodes"][a] * case["step"][a])]
+        if texts is not None:
+            add(dict(op="refwritebytes", content=obs["content"], v2=case["v2"], w=case["w"],
+                     floats=[[repr(float(x)), Q(x)] for x in dict.fromkeys(hdr)], texts=texts), "refbytes")
     if kind in ("rt", "trunc_rt"):
         tab = None if obs.get("negzero") else exact_fmt_table(obs["field"])
         if tab is not None:
             add(dict(op="writebytes", field=obs["field"], rep=case["rep"], extend=case["extend"], floats=tab), "write")
+            if case["rep"] == "txt":
+                texts = fmt_texts([float(x) for x in np.asarray(build_field(case).array).reshape(-1)] + [0.0])
+                if texts is not None:
+                    add(dict(op="writebytest", field=obs["field"], rep="txt", extend=case["extend"], floats=tab,
+                             texts=texts), "writet")
         if "trawb" in obs:
             add(readbytes_req(obs["trawb"], obs["tfile"], None, []), "tread")
             if py_ws_safe(obs["trawb"]):
@@ -1382,6 +1561,30 @@ def cmp_lex(name, raw, r, dis):
             dis.append(f"{name}: data line: python {lx['data']} vs model {m['data']}")
 
 
+def cmp_refbytes(case, obs, r, dis):
+    """the bytes of the model's reference writer, read by the REAL reader, must give the content"""
+    mb = bytes(r["ok"])
+    with tempfile.TemporaryDirectory(dir=TMPROOT) as d:
+        path = os.path.join(d, "modelref" + case["ext"])
+        open(path, "wb").write(mb)
+        st, g = read_file(path)
+    if st != "ok":
+        dis.append(f"from_file raised {g} on the bytes of the model's reference writer (OVF {'2.0' if case['v2'] else '1.0'}, w={case['w']})")
+        return
+    c = foreign_content(case)
+    pmin = [b - s_ / 2 for b, s_ in zip(case["base"], case["step"])]
+    pmax = [p + n * s_ for p, n, s_ in zip(pmin, case["nodes"], case["step"])]
+    if list(g.mesh.n) != case["nodes"] or g.nvdim != case["vd"] or g.mesh.region.pmin.tolist() != pmin \
+            or g.mesh.region.pmax.tolist() != pmax or list(g.mesh.region.units) != [case["meshunit"]] * 3:
+        dis.append(f"model's reference file read by from_file: n={list(g.mesh.n)} nvdim={g.nvdim} "
+                   f"{g.mesh.region.pmin.tolist()}..{g.mesh.region.pmax.tolist()} vs content {case['nodes']} {case['vd']} {pmin}..{pmax}")
+        return
+    vals = np.array(c["values"], dtype=np.float64).reshape(case["nodes"][2], case["nodes"][1], case["nodes"][0], case["vd"])
+    msg = same_values(g.array, np.transpose(vals, (2, 1, 0, 3)), {0: "txt", 4: "bin4", 8: "bin8"}[case["w"]])
+    if msg:
+        dis.append("model's reference file read by from_file: " + msg)
+
+
 def compare_bytes(case, obs, rs, dis):
     for idx, role in obs.get("_byte", []):
         r = rs[idx]
@@ -1391,6 +1594,19 @@ def compare_bytes(case, obs, rs, dis):
             st2 = "ok" if "ok" in r else "err"
             if st2 != obs["tread"]:
                 dis.append(f"truncated file (bytes): from_file {obs['tread']} vs model {st2}")
+        elif role == "readt":
+            cmp_read("bytes of the file (model of read_csv)", obs, r, dis, text=True)
+        elif role == "writet":
+            if "ok" not in r:
+                dis.append(f"to_file ok vs byte-level model text writer {r}")
+                continue
+            raw, mb = obs["rawb"], r["ok"]
+            if list(raw) != mb:
+                k = next((i for i, (x, y) in enumerate(zip(raw, mb)) if x != y), min(len(raw), len(mb)))
+                dis.append(f"written text file differs from the model's at offset {k} of {len(raw)} (model {len(mb)} bytes): "
+                           f"file {bytes(raw[max(0, k - 20):k + 20])!r} vs model {bytes(mb[max(0, k - 20):k + 20])!r}")
+        elif role == "refbytes":
+            cmp_refbytes(case, obs, r, dis)
         elif role == "lex":
             cmp_lex("file", obs["rawb"], r, dis)
         elif role == "tlex":
